@@ -55,16 +55,25 @@ def model_case(draw, classes, containers=("da", "ds", "list"), full_modes=False,
         al = list(M.cross_alpha({"cls": cls, "alpha": [draw(M.alphas), draw(M.alphas)]}))
         pp = []
         use_pca, npm = [], []
+        hil = M.is_hilbert_cls(cls)
+        # the analytic signal of n real samples spans at most n//2 complex dimensions after centring
+        nh = max(1, n // 2 - 1)
         for i in range(2):
             up = draw(st.booleans())
             k = None
-            if al[i] < 1 and not (ps[i] <= n - 2):
+            if hil and al[i] < 1 and ps[i] > nh:
+                up, k = True, nh
+            elif hil and al[i] < 1:
+                up = False
+            elif full_modes and al[i] < 1 and ps[i] > n - 1:
+                up, k = True, n - 1  # keeps the whole rank of the centred data
+            elif (not full_modes) and al[i] < 1 and not (ps[i] <= n - 2):
                 up, k = True, max(1, min(ps[i], n - 2))
             elif up:
                 if draw(st.booleans()) and not full_modes:
                     k = draw(st.integers(1, max(1, min(ps[i], n - 2))))
                 elif al[i] < 1:
-                    k = max(1, min(ps[i], n - 2))
+                    k = max(1, min(ps[i], n - 1 if full_modes else n - 2))
             use_pca.append(up)
             npm.append(k if k is not None else "all")
             pp.append(ps[i] if not up else (k if k is not None else min(n, ps[i])))
